@@ -15,6 +15,7 @@ use syn::*;
 
 const FILES: &[(&str, &str)] = &[
     ("errors", "errors.rs"),
+    ("serialization", "serialization/mod.rs"),
     ("ciphersuite", "ciphersuite.rs"),
     ("ksf", "ksf.rs"),
     ("group", "key_exchange/group/mod.rs"),
@@ -26,7 +27,7 @@ const FILES: &[(&str, &str)] = &[
     ("opaque", "opaque.rs"),
 ];
 // files whose items are only anchor-checked (contracts live in the prelude / Kani)
-const ANCHOR_ONLY: &[(&str, &str)] = &[("hash", "hash.rs"), ("serialization", "serialization/mod.rs")];
+const ANCHOR_ONLY: &[(&str, &str)] = &[("hash", "hash.rs")];
 
 /// traits whose declaration lives in /repo but whose contract is in the prelude (R14)
 const PRELUDE_TRAITS: &[&str] = &[
@@ -580,6 +581,47 @@ impl<'c> VisitMut for Rw<'c> {
                     let sp = mc.method.span();
                     if let Some(n) = self.chunks_of(&arr.elems.clone(), sp) { *e = n; }
                 }
+            }
+            // R5 (Input::iter): `.chain(match X { P => [a], .. })` and `.chain(if let P = X { Some(a) } else { None })` on a chunk
+            // iterator: every arm is an array literal / an Option, i.e. an IntoIterator of chunks -> Chunks::ofN / of1 / of0
+            Expr::MethodCall(mc) if mc.method == "chain" && mc.args.len() == 1
+                && (matches!(&mc.args[0], Expr::Match(m) if !m.arms.is_empty() && m.arms.iter().all(|a| matches!(&*a.body, Expr::Array(_))))
+                    || matches!(&mc.args[0], Expr::If(i) if matches!(&*i.cond, Expr::Let(_)))) => {
+                let sp = mc.method.span();
+                let mut ok = true;
+                match &mut mc.args[0] {
+                    Expr::Match(m) => {
+                        for a in m.arms.iter_mut() {
+                            if let Expr::Array(arr) = &*a.body {
+                                match self.chunks_of(&arr.elems.clone(), sp) { Some(n) => { a.body = Box::new(n); } None => { ok = false; } }
+                            }
+                        }
+                    }
+                    Expr::If(i) => {
+                        // then: { Some(x) }   else: { None }
+                        let then_ok = i.then_branch.stmts.len() == 1;
+                        let mut x: Option<Expr> = None;
+                        if then_ok {
+                            if let Stmt::Expr(Expr::Call(c), None) = &i.then_branch.stmts[0] {
+                                if ts(&*c.func) == "Some" && c.args.len() == 1 { x = Some(c.args[0].clone()); }
+                            }
+                        }
+                        let else_none = match &i.else_branch {
+                            Some((_, eb)) => matches!(&**eb, Expr::Block(b) if b.block.stmts.len() == 1 && matches!(&b.block.stmts[0], Stmt::Expr(Expr::Path(p), None) if p.path.is_ident("None"))),
+                            None => false,
+                        };
+                        match (x, else_none) {
+                            (Some(x), true) => {
+                                self.cx.rule("R5");
+                                i.then_branch = parse_quote!({ Chunks::of1(#x) });
+                                i.else_branch.as_mut().unwrap().1 = Box::new(parse_quote!({ Chunks::of0() }));
+                            }
+                            _ => { ok = false; }
+                        }
+                    }
+                    _ => {}
+                }
+                if !ok { self.cx.refuse("chain(..) argument outside the R5 shapes", sp); }
             }
             // X.expand_multi_info(&[a, b], out) -> X.expand_multi_info(Chunks::ofN(a, b), out)
             Expr::MethodCall(mc) if mc.method == "expand_multi_info" && mc.args.len() == 2 => {
